@@ -10,7 +10,16 @@ Definition mkdep i k p c po a co := {| d_id := i; d_kind := k; d_parent := p; d_
 Definition mkst i m k r := {| s_id := i; s_map := m; s_key := k; s_role := r |}.
 
 (* 1. two mappers that depend on each other through many-to-one relationships (A.b, B.a), rows a1 -> b1;
-      a1.b = None; delete(b1).  The DELETE of b1 is in the first layer, the UPDATE of a1 in the second. *)
+      a1.b = None; delete(b1).  [g_m2o]: the old target b1 was loaded (it is in get_all_pending): repaired by
+      a8ba61d, the UPDATE of a1 now precedes the DELETE of b1 (positive example below).
+      [g_m2o_unloaded]: a1.b was expired when it was reset, the unit of work does not know the old target:
+      the DELETE of b1 is in the first layer, the UPDATE of a1 in the second. *)
+Definition g_m2o_unloaded : graph := {|
+  g_deps := [mkdep 0 1 0 1 false true 0; mkdep 1 1 1 0 false true 1];
+  g_sts := [mkst 0 0 true 1; mkst 1 1 true 2];
+  g_links := [(0, 0, None); (1, 1, None)];
+  g_ref0 := [(0, 0, 1)]; g_ref1 := [];
+  g_sec0 := []; g_sec1 := []; g_notnull := [] |}.
 Definition g_m2o : graph := {|
   g_deps := [mkdep 0 1 0 1 false true 0; mkdep 1 1 1 0 false true 1];
   g_sts := [mkst 0 0 true 1; mkst 1 1 true 2];
@@ -43,7 +52,7 @@ Proof. apply NoDup_Permutation. Qed.
 
 Ltac nodup_ev := repeat constructor; simpl; intuition discriminate.
 
-Theorem m2o_unset_delete_refuted : refuted g_m2o tr_m2o.
+Theorem m2o_unset_delete_unloaded_refuted : refuted g_m2o_unloaded tr_m2o.
 Proof.
   eexists. eexists. split; [vm_compute; reflexivity|]. split; [vm_compute; reflexivity|]. split; [vm_compute; reflexivity|].
   split; [vm_compute; reflexivity|]. split; [vm_compute; reflexivity|]. split; [vm_compute; reflexivity|]. split; [|split].
@@ -68,4 +77,23 @@ Proof.
   - vm_compute. reflexivity.
   - exists [ESave 2; ESave 1; EPost 1; EDel 0]. split; [|vm_compute; discriminate].
     apply perm_skip, perm_skip, perm_swap.
+Qed.
+
+(* the repaired case: every hypothesis INCLUDING [managed] holds, and the only order the layers allow is the
+   right one *)
+Example m2o_unset_delete_repaired : exists cy layers,
+  wf g_m2o = true /\ consistent g_m2o = true /\ cycles std_tables g_m2o = Some cy /\ managed g_m2o cy = true /\
+  plan std_tables g_m2o = Layers layers /\ linearizes layers g_m2o cy [ESave 0; EDel 1] /\
+  exec (g_notnull g_m2o) (db0 g_m2o) (map (stmt_of g_m2o) [ESave 0; EDel 1]) <> None /\
+  In (code (SaveSt 0), code (DelSt 1)) (cedges (final_edges std_tables g_m2o cy)).
+Proof.
+  eexists. eexists. split; [vm_compute; reflexivity|]. split; [vm_compute; reflexivity|]. split; [vm_compute; reflexivity|].
+  split; [vm_compute; reflexivity|]. split; [vm_compute; reflexivity|]. split; [|split].
+  - split.
+    + apply perm_small; [nodup_ev|nodup_ev|]. intros x. vm_compute. tauto.
+    + exists (fun e => match e with ESave _ => 1%nat | _ => 2%nat end). split.
+      * intros e [<-|[<-|[]]]; eexists; (split; [left; reflexivity|vm_compute; reflexivity]).
+      * repeat constructor.
+  - vm_compute. discriminate.
+  - vm_compute. tauto.
 Qed.
